@@ -1,0 +1,17 @@
+//go:build verif
+
+// Contracts for server.go and peer_options.go (properties C13 C20 C10).
+package corebgp
+
+// ---- configuration validation (C20) ----
+
+//@ func peerOptions.validate returns (err)
+//@   ensures [nil_iff] (err == nil) == ((p.holdTime == 0 || p.holdTime >= 3000000000) && 1 <= p.port && p.port <= 65535)
+
+//@ func PeerConfig.validate returns (err)
+//@   ensures [nil_iff] (err == nil) == (addrIsValid(p.RemoteAddress) && (!addrIsValid(opts.localAddress) || addrIs4(opts.localAddress) == addrIs4(p.RemoteAddress)) && p.LocalAS != 0 && p.RemoteAS != 0)
+
+//@ func NewServer returns (s, err)
+//@   ensures [nil_iff] (err == nil) == addrIs4(routerID)
+//@   ensures [nil_on_error] err != nil ==> s == nil
+//@   ensures [fresh_server] err == nil ==> s != nil && fresh(s) && !s.serving && s.peers != nil && s.closeCh != nil && s.doneServingCh != nil && s.id == ((addr4byte(routerID, 0) * 256 + addr4byte(routerID, 1)) * 256 + addr4byte(routerID, 2)) * 256 + addr4byte(routerID, 3)
